@@ -79,12 +79,13 @@ def evalFci : Sexp → Option FciB
       | _ => none) {}
     pure (.fir b)
   | .list (.atom "sli" :: calls) => do
-    let b ← calls.foldlM (fun (b : SliBuilder) c =>
+    -- same result as folding `addLostMacroblock` (append at the end), built without the quadratic appends
+    let rev ← calls.foldlM (fun (acc : List MacroBlockEntry) c =>
       match c with
       | .list [.atom "add", f, n, p] => do
-        pure (b.addLostMacroblock (u16 (← f.toNat?)) (u16 (← n.toNat?)) (u8 (← p.toNat?)))
-      | _ => none) {}
-    pure (.sli b)
+        pure (⟨u16 (← f.toNat?), u16 (← n.toNat?), u8 (← p.toNat?)⟩ :: acc)
+      | _ => none) []
+    pure (.sli ⟨rev.reverse⟩)
   | .list (.atom "rpsi" :: calls) => do
     let b ← calls.foldlM (fun (b : RpsiBuilder) c =>
       match c with
@@ -95,6 +96,18 @@ def evalFci : Sexp → Option FciB
     pure (.rpsi b)
   | .list [.atom "pli"] => some .pli
   | _ => none
+
+def evalFb (k : FbKind) (mode : String) (fci : Sexp) (calls : List Sexp) : Option Cfg :=
+  if mode == "borrowed" || mode == "owned" then do
+    let f ← evalFci fci
+    let (p, s, m) ← calls.foldlM (fun (st : UInt8 × UInt32 × UInt32) c =>
+      match c with
+      | .list [.atom "padding", n] => do pure (u8 (← n.toNat?), st.2.1, st.2.2)
+      | .list [.atom "sender_ssrc", n] => do pure (st.1, u32 (← n.toNat?), st.2.2)
+      | .list [.atom "media_ssrc", n] => do pure (st.1, st.2.1, u32 (← n.toNat?))
+      | _ => none) ((0 : UInt8), (0 : UInt32), (0 : UInt32))
+    pure (.fb k f p s m)
+  else none
 
 partial def evalBuilder : Sexp → Option Cfg
   | .list (.atom "app" :: ssrc :: name :: calls) => do
@@ -153,18 +166,8 @@ partial def evalBuilder : Sexp → Option Cfg
       | .list [.atom "count", n] => do pure { b with count := u8 (← n.toNat?) }
       | _ => none) { type := u8 t, data := d }
     pure (.unknown b)
-  | .list (.atom kind :: .atom mode :: fci :: calls) =>
-    if (kind == "tfb" || kind == "pfb") && (mode == "borrowed" || mode == "owned") then do
-      let f ← evalFci fci
-      let k := if kind == "tfb" then FbKind.transport else FbKind.payload
-      let (p, s, m) ← calls.foldlM (fun (st : UInt8 × UInt32 × UInt32) c =>
-        match c with
-        | .list [.atom "padding", n] => do pure (u8 (← n.toNat?), st.2.1, st.2.2)
-        | .list [.atom "sender_ssrc", n] => do pure (st.1, u32 (← n.toNat?), st.2.2)
-        | .list [.atom "media_ssrc", n] => do pure (st.1, st.2.1, u32 (← n.toNat?))
-        | _ => none) ((0 : UInt8), (0 : UInt32), (0 : UInt32))
-      pure (.fb k f p s m)
-    else none
+  | .list (.atom "tfb" :: .atom mode :: fci :: calls) => evalFb FbKind.transport mode fci calls
+  | .list (.atom "pfb" :: .atom mode :: fci :: calls) => evalFb FbKind.payload mode fci calls
   | .list [.atom "pb", inner] => do
     let i ← evalBuilder inner
     match i with
@@ -323,6 +326,17 @@ def execRequest (line : String) : Out :=
       #[("padded", hexOf q)] ++ dumpView "a." k d ++ dumpView "b." k q
     | _, _, _ => #[("bad-request", "pad-args")]
   | some (.list [.atom "build", b, .list (.atom "bufs" :: bufs)]) => execBuild b bufs
+  | some (.list [.atom "size", b]) =>
+    match evalBuilder b with
+    | none => #[("bad-request", "builder")]
+    | some cfg =>
+      if !cfg.customsOk then #[("bad-request", "custom-grid")]
+      else
+        match cfg with
+        | .chunk _ | .item _ => #[]
+        | _ =>
+          let w := cfg.toWriter
+          #[("size", resW w.calcSize), ("getpad", optPad w.getPadding)]
   | _ => #[("bad-request", "syntax")]
 
 end Driver
